@@ -115,7 +115,8 @@ Qed.
 
 (* ---------------------------------------------------------------- the laws, on values *)
 
-Lemma gm_roots_cols b k rt (W W' : list Z) a0 b0 cols r : (0 < a0)%Z -> (0 < b0)%Z ->
+Lemma gm_roots_cols (b : base) (k : pw) (rt : bool) (W W' : list Z) (a0 b0 : Z) (cols : list col)
+  (r : list Q) : (0 < a0)%Z -> (0 < b0)%Z ->
   map (Z.mul a0) W' = map (Z.mul b0) W ->
   (roots_of ((if rt then 2 else 1) * gm_deg W') r (map (fun cl => gm_pre W' (pt b k cl)) cols) <->
    roots_of ((if rt then 2 else 1) * gm_deg W) r (map (fun cl => gm_pre W (pt b k cl)) cols)).
@@ -138,8 +139,8 @@ Proof.
   intros Hc m. destruct (int_weights_scale c w Hc) as [a0 [b0 [Ha [Hb HW]]]].
   unfold is_value, root_deg, pre_values, post. simpl. unfold col_agg, gm_weights.
   split; intros [r [Hr Hv]]; exists r; (split; [|exact Hv]).
-  - apply (gm_roots_cols b k rt _ _ a0 b0); assumption.
-  - apply (gm_roots_cols b k rt _ _ a0 b0) in Hr; assumption.
+  - exact (proj1 (gm_roots_cols b k rt _ _ a0 b0 cols r Ha Hb HW) Hr).
+  - exact (proj2 (gm_roots_cols b k rt _ _ a0 b0 cols r Ha Hb HW) Hr).
 Qed.
 
 (* equal horizon weights are no horizon weights *)
@@ -164,8 +165,8 @@ Proof.
   assert (length (c_true cl0) = n) as L0 by (inversion Hs as [|? ? [L _] _]; exact L).
   rewrite L0.
   split; intros [r [Hr Hv]]; exists r; (split; [|exact Hv]).
-  - apply (gm_roots_cols b k rt _ _ 1%Z b0); try assumption; lia.
-  - apply (gm_roots_cols b k rt _ _ 1%Z b0) in Hr; try assumption; lia.
+  - exact (proj1 (gm_roots_cols b k rt _ _ 1%Z b0 (cl0 :: cols) r Z.lt_0_1 Hb HW1) Hr).
+  - exact (proj2 (gm_roots_cols b k rt _ _ 1%Z b0 (cl0 :: cols) r Z.lt_0_1 Hb HW1) Hr).
 Qed.
 
 (* a step with horizon weight 0 does not contribute to a geometric-mean metric *)
